@@ -79,7 +79,7 @@ META = {
   "design_ref": "DESIGN.md 4 (C18)", "note": "Trusted base: harness help reader; accepted default renderings listed in the evidence assumptions.",
   "technique": "property-based testing (rapid) with a structural reader of the output + cross-path differential"},
  "C19": {
-  "text": "Robustness search: rapid over valid random definitions x hostile argv/COMP_LINE/environment (random bytes, 64 KiB tokens, 2000-letter bundles, odd dash tokens, malformed ranges, nil argv) x entry points, plus (thorough) native coverage-guided fuzzing on raw bytes against 12 dense definitions and on rapid's bitstream; oracle: no panic, every call within 10 s, failed Parse returns (nil, err), completion leaves through the exit path." + _HELD,
+  "text": "Robustness search: rapid over valid random definitions x hostile argv/COMP_LINE/environment (random bytes, 64 KiB tokens, 2000-letter bundles, odd dash tokens, malformed ranges, nil argv) x entry points, plus (thorough) native coverage-guided fuzzing on raw bytes against 12 dense definitions and on rapid's bitstream; oracle: no panic, every call within 60 s (generated sizes bound the cost), failed Parse returns (nil, err), completion leaves through the exit path." + _HELD,
   "design_ref": "DESIGN.md 4 (C19)", "note": "Trusted base: harness recover()/timer. Int ranges with span > 10^4 are outside the stated domain and discarded (counted). A process time-out is exit 2 (inconclusive) unless an isolated replay confirms it.",
   "technique": "fuzzing: property-based (rapid) + native coverage-guided go fuzzing with in-target semantic oracle"},
  "C20": {
